@@ -655,6 +655,104 @@ def re_strip(s):
     return re.sub(r"#\d+", "", s)
 
 
+
+
+# --------------------------------------------------------------------------------
+THROWING_CALLS = ("std::stod", "std::stoi", "std::stol", "std::stoul", "std::stof", "std::stoll", "std::stoull",
+                  "std::stold")
+
+
+class R5:
+    """Exceptions are contained: the hosts of the library do not catch."""
+    rid = "C10-R5"
+    text = ("every explicit throw and every call of a throwing standard conversion (std::sto*, .at()) is enclosed -- "
+            "lexically or in every caller up the call graph -- by a try whose handler catches it and reports through cvm::error")
+
+    def __init__(self, F, rep, rid=None, only_funcs=None):
+        self.F, self.rep = F, rep
+        self.cg = callgraph.get(F)
+        if rid:
+            self.rid = rid
+        self.only = only_funcs
+
+    def handler_ok(self, f, tr):
+        """try statement whose handlers catch std exceptions and report."""
+        hs = X.kids(tr)[1:]
+        for h in hs:
+            ct = h.get("ct", -1)
+            tname = f.typestr(ct) if ct >= 0 else "..."
+            catches = tname == "..." or "exception" in tname or "runtime_error" in tname or "logic_error" in tname
+            if not catches:
+                continue
+            reports = X.mentions(h, lambda x: x["k"] in ("CallExpr", "CXXMemberCallExpr") and (
+                x.get("cq") in ERROR_FUNCS))
+            rethrows = X.mentions(h, lambda x: x["k"] == "CXXThrowExpr")
+            if reports and not rethrows:
+                return True
+        return False
+
+    def lexically_contained(self, f, n):
+        cur = n
+        for a in f.ancestors(n):
+            if a["k"] == "CXXTryStmt":
+                ks = X.kids(a)
+                if ks and ks[0] is cur and self.handler_ok(f, a):
+                    return a
+            cur = a
+        return None
+
+    def contained(self, f, n, depth=0, seen=None):
+        seen = seen or set()
+        if self.lexically_contained(f, n) is not None:
+            return "try in %s" % f.q
+        if depth > 5 or f.m in seen:
+            return None
+        seen = seen | {f.m}
+        callers = self.cg.callers(f.m)
+        if not callers:
+            return None
+        why = []
+        for g, call in callers:
+            r = self.contained(g, call, depth + 1, seen)
+            if not r:
+                return None
+            why.append(r)
+        return "all callers: " + "; ".join(sorted(set(why)))
+
+    def run(self):
+        F, rep = self.F, self.rep
+        rep.rule(self.rid, self.text)
+        res = {}
+        for f in F.funcs.values():
+            if "/src/" not in f.file:
+                continue
+            if self.only is not None and f.m not in self.only:
+                continue
+            for n in f.walk():
+                kind = None
+                if n["k"] == "CXXThrowExpr":
+                    kind = "throw"
+                elif n["k"] == "CallExpr" and n.get("cq") in THROWING_CALLS:
+                    kind = n["cq"]
+                elif n["k"] == "CXXMemberCallExpr" and X.callee_name(n) == "at" and "std::" in n.get("rc", ""):
+                    kind = "at()"
+                if not kind:
+                    continue
+                why = self.contained(f, n)
+                what = X.text(X.kids(n)[0], f)[:80] if kind == "throw" and X.kids(n) else kind
+                key = "%s|%s|%s" % (f.q, kind, what)
+                prev = res.get(key)
+                ok = why is not None
+                if prev is not None and (not prev[0] or ok):
+                    continue
+                res[key] = (ok, f.loc(n), ("%s is contained (%s)" % (kind, why)) if ok else
+                            "%s can propagate out of the library: no enclosing try reports it through cvm::error" % kind,
+                            "an exception leaving src/ is std::terminate in every host", f.q)
+        for key, (ok, loc, what, detail, fq) in res.items():
+            rep.add(self.rid, key, loc, what, ok, detail=detail, func=fq)
+
+
 def run(F, rep, tier):
     R1(F, rep).run()
     R2(F, rep).run()
+    R5(F, rep).run()
